@@ -160,10 +160,10 @@ PROPS["C19"] = {
 }
 PROPS["C20"] = {
     "engine": "mir-bmc", "technique": _M_TECH,
-    "bounds": "engine M: a suspended send_with_async is modelled by what the real code has done when it suspends: the slot reservation of the channel's container (leak_slot_internal / leak_slot) by a thread that then returns and never publishes within the run; 1-2 other threads perform send / receive; an operation that is still unfinished K steps after every other thread returned spins (K = its longest acyclic path + 2); containers of all four Uni channel kinds that implement send_with_async over rings (movable atomic / full-sync, zero-copy atomic / full-sync), BUFFER_SIZE 2",
+    "bounds": "engine M: a suspended send_with_async is modelled by what the real code has done when it suspends: the slot reservation of the channel's container (leak_slot_internal / leak_slot) by a thread that then returns and never publishes within the run; 1-2 other threads perform send / receive; an operation that is still unfinished K steps after every other thread returned spins (K = its longest acyclic path + 2); containers of all four Uni channel kinds that implement send_with_async over rings (movable atomic / full-sync, zero-copy atomic / full-sync), BUFFER_SIZE 2, including the exactly-full state (suspended slot + BUFFER_SIZE-1 queued events: one more send must be rejected promptly)",
     "outside": "the coroutine state machine of send_with_async itself (not translated; its pre-await part is exactly the reservation call that is encoded); Multi channels (they allocate separately per send, like the zero-copy Uni channels); crossbeam; resumption of the suspended send (its completion path is the ordinary publish path decided under C01/C08)",
     "assumptions": [_M_NOTE],
-    "m": [M("c20_zc_atomic_suspended_vs_send_recv", "thorough"), M("c20_zc_fullsync_suspended_vs_send_recv", "thorough"), M("c20_atomic_suspended_vs_recv"), M("c20_atomic_suspended_vs_send"),
+    "m": [M("c20_zc_atomic_suspended_vs_send_recv", "thorough"), M("c20_zc_fullsync_suspended_vs_send_recv", "thorough"), M("c20_zc_atomic_suspended_full_vs_send"), M("c20_zc_fullsync_suspended_full_vs_send"), M("c20_atomic_suspended_vs_recv"), M("c20_atomic_suspended_vs_send"),
           M("c20_fullsync_suspended_vs_send"), M("c20_fullsync_suspended_vs_recv")],
     "k": [],
 }
